@@ -385,6 +385,10 @@ func init() {
 			"shadowing a key) loaded by the real ProcessTemplates, then a history of SetRuntimeVar / SetGlobalRuntimeVar / DeleteRuntimeVar / " +
 			"DeleteGlobalRuntimeVar calls on arbitrary roles of the loaded tree, then the same observation at EVERY role — 7 fixed shapes x every " +
 			"role x 9 histories, and random templates (<=14 loaded roles, 1-6 writes); non-trivial = some non-global write lands below the root; " +
+			"(c') INCLUDE ROLES in those templates (node N: the include site's own defaults/vars + the root of the included sub-workflow with defaults/vars " +
+			"of its own, served from an in-memory workflow repository through the LoadSubworkflowFunc given to ProcessTemplates): plain, as an iterator's " +
+			"template, nested, with iterators inside the included workflow, with the iteration variable also defined at the root / in the environment / in the " +
+			"included root — 4 more fixed shapes x every role x 9 histories, one third of the random templates (tags wincl=, witerincl=), one environment shape; " +
 			"(d) writes of the environment itself: a REAL core/environment.Environment (newEnvironment, real fsm and callbacks, TryTransition) with a " +
 			"configuration store (defaults, vars -> BaseConfigStack), user-supplied variables and a loaded workflow, driven through schedules of " +
 			"transitions (legal, illegal, with failing task-level bodies) and runtime writes in between; the per-role observation at EVERY role after " +
@@ -400,6 +404,7 @@ func init() {
 			"hooks core/workflow/verif_hook_c14.go (VerifC14SetParent = setParent) and core/task/verif_hook_c14.go (VerifC14NewTask = the Task literal of newTaskForMesosOffer)",
 			"expr-lang/fasttemplate evaluation of a bare identifier",
 			"writes form: repos.Repo{h/p/r@x} as the workflow repository, addressing of loaded roles by child index through GetRoles()",
+			"include roles: the LoadSubworkflowFunc of the harness (reflect.MakeFunc over the exported func type; NewAggregatorRole + yaml.Unmarshal + setParent = the steps of the closure in workflow.Load, reading from a map instead of the repository manager's checkout); go/ast of the four ProcessTemplates (loadfacts.go)",
 			"environment form: hooks core/environment/verif_hooks.go (NewEnvironmentForVerif = newEnvironment, SetWorkflowForVerif, WfAdapterForVerif, NewScriptedTransition), " +
 				"core/task NewBareManagerForVerif; the store's content is put into the exported GlobalDefaults/GlobalVars after newEnvironment and BaseConfigStack is " +
 				"recomputed with newEnvironment's expression; timestamps printed as T (13 digits), run numbers by order of drawing; go/ast enumeration of the environment's writes (envfacts.go)",
@@ -409,12 +414,14 @@ func init() {
 			"values contain no template syntax (template references between levels are C15's load model)",
 			"the configuration service (mock://) is not consulted when a field is a bare identifier",
 			"writes form: every aggregator has a child and every iterator a value (pruning of disabled/empty roles is C15's subject); a role's U is written after the load on every instance",
+			"include roles: the include site has no user vars (none can be written before the load through the harness; after the load no API reaches that map) and the include expression is a literal name",
 			"environment form: no hooks in the workflow, the task-level body of a transition writes no variable (true of the real transition bodies: go/ast table lists every write of core/environment), " +
 				"inputs do not use __fmq_cleanup_count nor the six keys apricot's GetDefaults adds (consul_*, framework_id, core_hostname); opaque guard `err == nil` of before_event holds",
 		},
 	})
 	fw.RegisterGen(fw.GenFile{Name: "VarsFacts.lean", Make: genFacts})
 	fw.RegisterGen(fw.GenFile{Name: "C14EnvWrites.lean", Make: genEnvWrites})
+	fw.RegisterGen(fw.GenFile{Name: "C14LoadFacts.lean", Make: genLoadFacts})
 }
 
 // ---- regenerated facts ----------------------------------------------------------------
